@@ -357,6 +357,9 @@ def main(prop: str, tier: str = "quick") -> int:
         n_viol += 1
     for r in unsupported:
         bs = r.get("bounded_standin") or {}
+        if bs.get("error"):  # the stand-in itself crashed: that is a broken checker, never "no failing input"
+            checker_errors.append({"contract": r["contract"] + ".bounded_standin", "status": "checker-error", "unsupported": bs["error"]})
+            continue
         if bs.get("failing_input") is not None:
             rel = f"replays/{prop}-bounded-{hashlib.sha1(r['target'].encode()).hexdigest()[:8]}.json"
             with open(os.path.join(HERE, rel), "w") as fh:
